@@ -1,219 +1,227 @@
-(* Proofs about Model/Session.v by an inductive invariant of the UConn/sessionController automaton along legal
-   histories. The invariant is a boolean function of the state; preservation is proved by head-first symbolic
-   execution of every path through [step] (tactics [hstep]/[unstick]/[leaf] below).
-   This file: the tactics, the invariant [invb] for the mimicking ClientHelloIDs (its preservation lemmas, as far as
-   they exist, are in SessionInvP.v) and the complete invariant proof for HelloGolang ([invg], [step_ok_golang]). *)
+(* Proofs about Model/Session.v. The state of the model is finite control x provenance flags x data, and the control
+   behaviour of a call depends only on the finite parts ([run_split], generic over programs). For every abstract
+   world the set of reachable (legality bookkeeping, control, flags) nodes is computed ([reach]) and checked, by
+   computation, to contain the initial node, to be closed under every legal call without a panic, and to satisfy the
+   per-node facts (forbidden calls rejected, key-share keys, provenance of what was marshaled). That is an inductive
+   invariant over a finite space; induction over the history lifts it to histories of any length. The data theorems
+   follow from the provenance flags through [Dinv]: a datum flagged "injected" is the injected value. *)
 From UV Require Import Base.Common Model.Session.
-From Coq Require Import ZifyBool ZifyNat ZifyN.
 
-Lemma bytes_eqb_refl (b : bytes) : bytes_eqb b b = true.
-Proof. apply bytes_eqb_eq. reflexivity. Qed.
-
-Definition obj_uninit (o : option obj) : bool := match o with Some o => negb (o_init o) | None => true end.
-Definition slot_ok (own : option obj) (sl : slot) : bool :=
-  match sl with SOwn => is_some own | SObj o => negb (o_init o) end.
-Definition obj_is (o : option obj) (d : bytes) (se : N) : bool :=
-  match o with Some o => o_init o && bytes_eqb (o_data o) d && (o_sess o =? se) | None => false end.
-
-(* what a legal history has injected so far *)
-Definition inj_next (i : option inj) (o : op) : option inj :=
-  match i with Some _ => i | None => inj_of o end.
-
-Definition invb (w : world) (l : lst) (i : option inj) (s : st) : bool :=
-  negb (calling s) &&
-  (match status s with
-   | NotBuilt => negb (locked s) && (cst_eqb (cs s) NoSession || cst_eqb (cs s) TicketInit || cst_eqb (cs s) PskInit)
-   | ByUtls => locked s && applied s && (cst_eqb (cs s) NoSession || cst_eqb (cs s) TicketAllSet || cst_eqb (cs s) PskAllSet)
-   | ByGo => false
-   end) &&
-  (match cs s with
-   | NoSession => obj_uninit (own_t s) && obj_uninit (own_p s)
-   | TicketInit | TicketAllSet => is_some (own_t s)
-   | PskInit => is_some (own_p s)
-   | PskAllSet => match own_p s with
-                  | Some o => (hs_sess s =? o_sess o) && (hs_early s =? o_sess o) &&
-                              match hs_ident s with Some d => bytes_eqb d (o_data o) | None => false end
-                  | None => false
-                  end
-   end) &&
-  (match x_t s with [] => true | [sl] => slot_ok (own_t s) sl | _ => false end) &&
-  (match x_p s with None => true | Some sl => w_psk w && slot_ok (own_p s) sl end) &&
-  (negb (applied s) || (Nat.eqb (length (x_t s)) (w_tickets w) && Bool.eqb (is_some (x_p s)) (w_psk w))) &&
-  (* key shares: once the preset is applied the private key is the one of the share *)
-  (negb (applied s) || negb (w_tls13 w) || (is_some (share s) && optN_eqb (keys s) (share s))) &&
-  (applied s || negb (is_some (share s)) || (cst_eqb (cs s) TicketInit && Nat.eqb (w_tickets w) 0)
-   || (cst_eqb (cs s) PskInit && negb (w_psk w))) &&
-  (* link with the legality bookkeeping *)
-  Bool.eqb (l_cache l) (cache s) &&
-  (negb (l_set l) || negb (cst_eqb (cs s) NoSession)) &&
-  (if l_built l then locked s || negb (cst_eqb (cs s) NoSession)
-   else negb (locked s) && (l_set l || cst_eqb (cs s) NoSession) && bstatus_eqb (status s) NotBuilt) &&
-  (if l_hs l then true else negb (done s) && negb (herr s)) &&
-  (* the injected session *)
-  (match i with
-   | None => true
-   | Some (InjTicket tk se) =>
-       l_set l && obj_is (own_t s) tk se && (cst_eqb (cs s) TicketInit || cst_eqb (cs s) TicketAllSet) &&
-       (negb (bstatus_eqb (status s) ByUtls) ||
-        ((hs_sess s =? se) && bytes_eqb (hs_ticket s) tk &&
-         match raw s with Some ([t], _) => bytes_eqb t tk | _ => false end))
-   | Some (InjPsk lb se) =>
-       l_set l && obj_is (own_p s) lb se && (cst_eqb (cs s) PskInit || cst_eqb (cs s) PskAllSet) &&
-       (negb (bstatus_eqb (status s) ByUtls) ||
-        ((hs_sess s =? se) &&
-         match raw s with Some (_, Some d) => bytes_eqb d lb | _ => false end))
-   end) &&
-  (if done s then match wire s, raw s with Some a, Some b => true | _, _ => true end else true).
-
-Opaque N.eqb bytes_eqb N.add.
-Ltac simp := cbn in *;
-  try (rewrite ?N.eqb_refl, ?bytes_eqb_refl, ?orb_false_r, ?andb_true_r, ?orb_true_r, ?andb_false_r in * ).
-Ltac simph := cbn in * |-;
-  try (rewrite ?orb_false_r, ?andb_true_r, ?orb_true_r, ?andb_false_r in * |- ).
-Ltac split_hyps := repeat match goal with H : andb _ _ = true |- _ => apply andb_prop in H; destruct H end;
-                   repeat match goal with H : true = true |- _ => clear H end.
-Ltac substb := repeat match goal with
-  | H : ?x = true |- _ => is_var x; subst x
-  | H : ?x = false |- _ => is_var x; subst x
-  end.
-Ltac contra0 := match goal with
-  | H : false = true |- _ => discriminate H
-  | H : true = false |- _ => discriminate H
-  | H : None = Some _ |- _ => discriminate H
-  | H : Some _ = None |- _ => discriminate H
-  end.
-Ltac contra := first [ contra0 | substb; cbn in * |-; contra0 ].
-Ltac rec_destr := repeat match goal with o : obj |- _ => destruct o end.
-Ltac dmg :=
-  match goal with
-  | |- context [match ?x with _ => _ end] => is_var x; destruct x
-  end.
-Ltac dmh :=
-  match goal with
-  | H : context [match ?x with _ => _ end] |- _ => is_var x; destruct x
-  end.
-Ltac use_hyps := repeat match goal with H : ?b = true |- context [?b] => progress rewrite H end;
-                 rewrite ?N.eqb_refl, ?bytes_eqb_refl.
-Ltac quick := split_hyps; try contra; repeat (apply andb_true_intro; split); try reflexivity; try assumption.
-Ltac leaf := repeat (use_hyps; simp; try contra; split_hyps; try contra;
-                     repeat (apply andb_true_intro; split); try reflexivity; try assumption; try dmg; rec_destr).
-Ltac leaf2 := repeat (use_hyps; simp; try contra; split_hyps; try contra;
-                     repeat (apply andb_true_intro; split); try reflexivity; try assumption; try dmh; rec_destr).
-Ltac fixl := repeat match goal with L : Some ?a = Some ?b |- _ => assert (b = a) by congruence; subst b; clear L end.
-
-(* the result of the step, kept folded so that it is evaluated head-first along one path at a time *)
-Definition okp (w : world) (l' : lst) (i' : option inj) (X : st * res unit) : Prop :=
-  is_panic (snd X) = false /\ invb w l' i' (fst X) = true.
-Definition ok_after (w : world) (l : lst) (i : option inj) (s : st) (o : op) (l' : lst) : Prop :=
-  okp w l' (inj_next i o) (step w o s).
-
-Ltac head_eval :=
-  match goal with
-  | |- okp ?w ?l ?i ?T => let t := eval hnf in T in
-                         let t2 := eval lazy beta iota zeta delta [sessions_off should_update_binders is_some cst_eqb bstatus_eqb negb orb andb optN_eqb slot_obj demote option_map Session.o_user Session.o_init Session.o_data Session.o_sess Session.cache Session.status Session.applied Session.cs Session.locked Session.tracker Session.calling Session.own_t Session.own_p Session.x_t Session.x_p Session.hs_sess Session.hs_ticket Session.hs_ident Session.hs_early Session.gen Session.keys Session.share Session.raw Session.done Session.herr Session.wire Session.w_golang Session.w_tickets Session.w_psk Session.w_psk_last Session.w_skip Session.w_tls13 Session.w_cache0 Session.w_disabled Session.w_omit Session.w_hit Session.w_srv13 Session.w_reapply fst snd mbind uassert when ret get upd merr mpanic] in t in change (okp w l i t2)
-  end.
-Ltac hd t := lazymatch t with
-  | ?f _ => hd f
-  | match ?c with _ => _ end => hd c
-  | _ => t
-  end.
-Ltac unstick t :=
-  let h := hd t in
-  lazymatch h with
-  | N.eqb => match t with context [N.eqb ?a ?b] =>
-               first [ match goal with H : N.eqb a b = true |- _ => rewrite H end
-                     | match goal with H : N.eqb a b = false |- _ => rewrite H end
-                     | destruct (N.eqb a b) eqn:? ] end
-  | bytes_eqb => match t with context [bytes_eqb ?a ?b] =>
-               first [ match goal with H : bytes_eqb a b = true |- _ => rewrite H end
-                     | match goal with H : bytes_eqb a b = false |- _ => rewrite H end
-                     | destruct (bytes_eqb a b) eqn:? ] end
-  | Nat.eqb => match t with context [Nat.eqb ?a ?b] => destruct (Nat.eqb a b) eqn:? end
-  | _ => first [ is_var h; destruct h | unfold h
-               | match t with context [match ?x with _ => _ end] => is_var x; destruct x end ]
-  end.
-Ltac hstep :=
-  head_eval; use_hyps;
-  lazymatch goal with
-  | |- okp _ _ _ (pair _ _) => fail
-  | |- okp _ _ _ ?t => unstick t
-  end; rec_destr; simph; try contra; split_hyps; try contra.
-Ltac hexec := repeat hstep.
-
-Ltac resolveL :=
-  repeat (cbn in * |-; try contra;
-          match goal with
-          | L : ?lhs = Some _ |- _ =>
-              match lhs with context [?x] => is_var x; lazymatch type of x with bool => destruct x end end
-          end); cbn in * |-; try contra; fixl.
-
-Ltac finish := repeat (first [dmg | dmh]; rec_destr; use_hyps; simp; try contra; split_hyps; try contra;
-                        repeat (apply andb_true_intro; split); try reflexivity; try assumption).
-Ltac solve_op :=
-  hexec; unfold okp; simp; try contra;
-  (split; [try reflexivity|]); quick; leaf; leaf2; finish.
-(* worlds of predefined parrots, made explicit *)
-Ltac world_cases :=
-  match goal with W : world_ok _ = true |- _ => unfold world_ok in W; cbn in W end;
-  split_hyps;
-  repeat match goal with
-         | H : negb ?x = true |- _ => is_var x; destruct x; [discriminate H | clear H]
-         | H : ?x = true |- _ => is_var x; subst x
-         | H : ?x = false |- _ => is_var x; subst x
-         end;
-  match goal with
-  | t : nat |- _ => destruct t as [|[|t]]; cbn in *; try contra
-  end;
-  repeat match goal with
-         | H : _ || _ = true |- _ => apply orb_prop in H; destruct H
-         end;
-  split_hyps; try contra;
-  repeat match goal with
-         | H : negb ?x = true |- _ => is_var x; destruct x; [discriminate H | clear H]
-         | H : ?x = true |- _ => is_var x; subst x
-         end; try contra.
-
-Ltac start :=
-  intros w l i s l' W G H L; destruct w, l; cbn in G; world_cases; destruct s;
-  unfold ok_after, legal_step, forbidden, setter_arg, inj_next, inj_of in *; cbn in L; resolveL;
-  unfold invb in H; simph; split_hyps; try contra.
-
-
-(* ---- HelloGolang: the controller is only touched by the setters; crypto/tls loads the session itself ---- *)
-Definition invg (w : world) (l : lst) (s : st) : bool :=
-  negb (calling s) && negb (locked s) &&
-  (match status s with
-   | NotBuilt => true
-   | ByGo => is_some (share s) && optN_eqb (keys s) (share s)
-   | ByUtls => false
-   end) &&
-  (match tracker s with NeverCalled => true | _ => done s || herr s end) &&
-  Bool.eqb (l_cache l) (cache s) &&
-  (l_set l || cst_eqb (cs s) NoSession) &&
-  (if l_hs l then true else negb (done s) && negb (herr s)).
-
-Definition okg (w : world) (l' : lst) (X : st * res unit) : Prop :=
-  is_panic (snd X) = false /\ invg w l' (fst X) = true.
-
-Ltac head_evalg :=
-  match goal with
-  | |- okg ?w ?l ?T => let t := eval hnf in T in
-                        let t2 := eval lazy beta iota zeta delta [sessions_off should_update_binders is_some cst_eqb bstatus_eqb negb orb andb optN_eqb slot_obj demote option_map Session.o_user Session.o_init Session.o_data Session.o_sess Session.cache Session.status Session.applied Session.cs Session.locked Session.tracker Session.calling Session.own_t Session.own_p Session.x_t Session.x_p Session.hs_sess Session.hs_ticket Session.hs_ident Session.hs_early Session.gen Session.keys Session.share Session.raw Session.done Session.herr Session.wire Session.w_golang Session.w_tickets Session.w_psk Session.w_psk_last Session.w_skip Session.w_tls13 Session.w_cache0 Session.w_disabled Session.w_omit Session.w_hit Session.w_srv13 Session.w_reapply fst snd mbind uassert when ret get upd merr mpanic] in t in change (okg w l t2)
-  end.
-Ltac hstepg :=
-  head_evalg; use_hyps;
-  lazymatch goal with
-  | |- okg _ _ (pair _ _) => fail
-  | |- okg _ _ ?t => unstick t
-  end; rec_destr; simph; try contra; split_hyps; try contra.
-
-Lemma step_ok_golang : forall o w l s l', w_golang w = true -> invg w l s = true ->
-  legal_step w l o = Some l' -> okg w l' (step w o s).
+(* ---- the control behaviour of a program depends only on the finite parts ---- *)
+Lemma run_split {A} (w : world) (o : op) (p : prog A) : forall c g d,
+  fst (fst (runF w o p c g d)) = fst (runC (kind o) p c g) /\
+  snd (runF w o p c g d) = snd (runC (kind o) p c g).
 Proof.
-  intros o w l s l' G H L. destruct w, l. cbn in G. subst. destruct s.
-  unfold legal_step, forbidden, setter_arg in L.
-  destruct o as [| |[[[ii d] se]|]|[[[ii d] se]|]|[[d se]|]| |]; cbn in L; resolveL;
-  unfold invg in H; simph; split_hyps; try contra.
-  all: repeat hstepg; unfold okg; simp; try contra; (split; [try reflexivity|]); quick; leaf; leaf2; finish.
+  induction p as [a|k IH|h q IH|a q IH|e|x]; intros c g d; cbn.
+  - split; reflexivity.
+  - apply IH.
+  - apply IH.
+  - apply IH.
+  - split; reflexivity.
+  - split; reflexivity.
 Qed.
 
+(* ---- nodes of the control graph: legality bookkeeping, control, flags ---- *)
+Definition node := (lst * (cstate * gstate))%type.
+
+Definition node_eq_dec : forall a b : node, {a = b} + {a <> b}.
+Proof. repeat decide equality. Defined.
+
+Definition b2n (b : bool) : N := if b then 1 else 0.
+Definition code (n : node) : N :=      (* a cheap hash, used only to skip most comparisons *)
+  let '(l, (c, g)) := n in
+  b2n (l_cache l) + 2 * b2n (l_set l) + 4 * b2n (l_built l) + 8 * b2n (l_hs l) +
+  16 * (match cs c with NoSession => 0 | TicketInit => 1 | TicketAllSet => 2 | PskInit => 3 | PskAllSet => 4 end) +
+  128 * (match status c with NotBuilt => 0 | ByUtls => 1 | ByGo => 2 end) +
+  512 * b2n (applied c) + 1024 * b2n (locked c) + 2048 * b2n (done c) + 4096 * b2n (herr c) +
+  8192 * (match own_t c with ONone => 0 | OSome u i => 1 + b2n u + 2 * b2n i end) +
+  65536 * (match own_p c with ONone => 0 | OSome u i => 1 + b2n u + 2 * b2n i end) +
+  524288 * (match x_t c with X0 => 0 | X1 SOwn => 1 | X1 _ => 2 | Xmany _ => 3 end) +
+  2097152 * (match x_p c with XPnone => 0 | XPsome SOwn => 1 | XPsome _ => 2 end) +
+  8388608 * (match g_own_t g with GInj => 1 | GOther => 0 end) +
+  16777216 * (match g_hs_sess g with GInj => 1 | GOther => 0 end) +
+  33554432 * (match tracker c with NeverCalled => 0 | AboutToCall => 1 | ByULoad => 2 | ByGoTLS => 3 end).
+
+Definition memb (n : node) (r : list (N * node)) : bool :=
+  let h := code n in
+  existsb (fun hm => (fst hm =? h) && if node_eq_dec n (snd hm) then true else false) r.
+
+Lemma memb_in n r : memb n r = true -> In n (map snd r).
+Proof.
+  unfold memb. rewrite existsb_exists. intros [[h m] [I E]]. cbn in E.
+  apply andb_prop in E. destruct E as [_ E]. destruct (node_eq_dec n m) as [->|]; [|discriminate].
+  apply in_map_iff. exists (h, m). auto.
+Qed.
+
+Definition kinds : list okind :=
+  [KSetCache; KBuildNoSess; KSetTicket ANil; KSetTicket AInit; KSetTicket AUninit;
+   KSetPsk ANil; KSetPsk AInit; KSetPsk AUninit; KSetState; KBuild; KHandshake].
+Lemma kinds_complete k : In k kinds.
+Proof. destruct k as [| |[]|[]| | |]; cbn; auto 12. Qed.
+
+Definition succs (cw : cworld) (n : node) : list node :=
+  flat_map (fun k => match legal_stepk cw (fst n) k with
+                     | Some l' => [(l', fst (cstep cw k (fst (snd n)) (snd (snd n))))]
+                     | None => []
+                     end) kinds.
+
+Fixpoint explore (fuel : nat) (cw : cworld) (seen todo : list (N * node)) : list (N * node) :=
+  match fuel with
+  | O => seen
+  | S f =>
+      match todo with
+      | [] => seen
+      | (_, n) :: rest =>
+          let '(seen', new) :=
+            fold_left (fun acc m => let '(sn, nw) := acc in
+                                    if memb m sn then acc else ((code m, m) :: sn, (code m, m) :: nw))
+                      (succs cw n) (seen, []) in
+          explore f cw seen' (rest ++ new)
+      end
+  end.
+
+Definition node0 (cw : cworld) : node := (linit (cw_cache0 cw), (cinit (cw_cache0 cw), ginit)).
+Definition reach (cw : cworld) : list (N * node) :=
+  explore 5000 cw [(code (node0 cw), node0 cw)] [(code (node0 cw), node0 cw)].
+
+
+(* ---- per-node facts ---- *)
+Definition rejected (r : res unit) : bool :=
+  match r with Err 1 | Panic 1 | Panic 2 => true | _ => false end.    (* E_DISABLED; P_LOCKED, P_STATE *)
+Definition is_inj (x : ghost) : bool := match x with GInj => true | GOther => false end.
+
+Definition keys_p (cw : cworld) (c : cstate) : bool :=
+  if cw_golang cw
+  then implb (bstatus_eqb (status c) ByGo) (share_some c && keys_some c && keys_match c)
+  else implb (bstatus_eqb (status c) ByUtls) (applied c) &&
+       implb (applied c && cw_tls13 cw) (share_some c && keys_some c && keys_match c).
+Definition wire_p (cw : cworld) (l : lst) (c : cstate) (g : gstate) : bool :=
+  cw_golang cw || negb (bstatus_eqb (status c) ByUtls) ||
+  match l_inj l with
+  | ITicket => is_inj (g_hs_sess g) && is_inj (g_hs_ticket g) && is_inj (g_raw_t g)
+  | IPsk => is_inj (g_hs_sess g) && is_inj (g_raw_p g)
+  | INone => true
+  end.
+
+Definition kind_ok (cw : cworld) (R : list (N * node)) (l : lst) (c : cstate) (g : gstate) (k : okind) : bool :=
+  match legal_stepk cw l k with
+  | Some l2 => negb (is_panic (snd (cstep cw k c g))) && memb (l2, fst (cstep cw k c g)) R
+  | None => true
+  end &&
+  (cw_golang cw || negb (forbiddenk cw l k) || rejected (snd (cstep cw k c g))).
+Definition node_ok (cw : cworld) (R : list (N * node)) (n : node) : bool :=
+  forallb (kind_ok cw R (fst n) (fst (snd n)) (snd (snd n))) kinds &&
+  keys_p cw (fst (snd n)) && wire_p cw (fst n) (fst (snd n)) (snd (snd n)).
+Definition check_with (cw : cworld) (R : list (N * node)) : bool :=
+  memb (node0 cw) R && forallb (fun hn => node_ok cw R (snd hn)) R.
+Definition check (cw : cworld) : bool := check_with cw (reach cw).
+
+(* ---- every abstract world ---- *)
+Definition bools := [true; false].
+Definition all_cworlds : list cworld :=
+  flat_map (fun a => flat_map (fun b => flat_map (fun c => flat_map (fun d => flat_map (fun e => flat_map (fun f =>
+  flat_map (fun g => flat_map (fun h => flat_map (fun i => flat_map (fun j => flat_map (fun k =>
+  map (fun m => mkCW a b c d e f g h i j k m) bools) bools) [HNone; H12; H13]) bools) bools) bools) bools) bools) bools)
+  bools) [T0; T1; Tmany]) bools.
+
+Lemma all_cworlds_complete cw : In cw all_cworlds.
+Proof.
+  destruct cw as [a b c d e f g h i j k m]. unfold all_cworlds.
+  apply in_flat_map. exists a. split; [destruct a; cbn; auto|].
+  apply in_flat_map. exists b. split; [destruct b; cbn; auto|].
+  apply in_flat_map. exists c. split; [destruct c; cbn; auto|].
+  apply in_flat_map. exists d. split; [destruct d; cbn; auto|].
+  apply in_flat_map. exists e. split; [destruct e; cbn; auto|].
+  apply in_flat_map. exists f. split; [destruct f; cbn; auto|].
+  apply in_flat_map. exists g. split; [destruct g; cbn; auto|].
+  apply in_flat_map. exists h. split; [destruct h; cbn; auto|].
+  apply in_flat_map. exists i. split; [destruct i; cbn; auto|].
+  apply in_flat_map. exists j. split; [destruct j; cbn; auto|].
+  apply in_flat_map. exists k. split; [destruct k; cbn; auto|].
+  apply in_map. destruct m; cbn; auto.
+Qed.
+
+Lemma sweep_all : forallb (fun cw => if cworld_ok cw then check cw else true) all_cworlds = true.
+Proof. vm_cast_no_check (eq_refl true). Time Qed.
+
+Opaque reach explore.
+
+Lemma check_ok cw : cworld_ok cw = true -> check cw = true.
+Proof.
+  intros W. pose proof sweep_all as S. rewrite forallb_forall in S.
+  specialize (S cw (all_cworlds_complete cw)). cbv beta in S. rewrite W in S. exact S.
+Qed.
+
+(* membership in the reachable set is an inductive invariant *)
+Definition inR (cw : cworld) (n : node) : Prop := In n (map snd (reach cw)).
+
+Lemma inR_node_ok cw n : cworld_ok cw = true -> inR cw n -> node_ok cw (reach cw) n = true.
+Proof.
+  intros W I. pose proof (check_ok cw W) as C. unfold check, check_with in C. apply andb_prop in C. destruct C as [_ C].
+  rewrite forallb_forall in C. unfold inR in I. apply in_map_iff in I. destruct I as [[h m] [E I]]. cbn in E. subst m.
+  exact (C (h, n) I).
+Qed.
+
+Lemma inR_init cw : cworld_ok cw = true -> inR cw (node0 cw).
+Proof.
+  intros W. pose proof (check_ok cw W) as C. unfold check, check_with in C. apply andb_prop in C. destruct C as [C _].
+  exact (memb_in _ _ C).
+Qed.
+
+Lemma inR_kind cw l c g k : cworld_ok cw = true -> inR cw (l, (c, g)) ->
+  kind_ok cw (reach cw) l c g k = true.
+Proof.
+  intros W I. pose proof (inR_node_ok cw _ W I) as N. unfold node_ok in N. cbv beta iota delta [fst snd] in N.
+  apply andb_prop in N. destruct N as [N _]. apply andb_prop in N. destruct N as [N _].
+  rewrite forallb_forall in N. exact (N k (kinds_complete k)).
+Qed.
+
+Lemma inR_step cw l c g k l2 : cworld_ok cw = true -> inR cw (l, (c, g)) -> legal_stepk cw l k = Some l2 ->
+  is_panic (snd (cstep cw k c g)) = false /\ inR cw (l2, fst (cstep cw k c g)).
+Proof.
+  intros W I L. pose proof (inR_kind cw l c g k W I) as K. unfold kind_ok in K. rewrite L in K.
+  apply andb_prop in K. destruct K as [K _]. apply andb_prop in K. destruct K as [P M].
+  split; [destruct (is_panic _); [discriminate|reflexivity] | exact (memb_in _ _ M)].
+Qed.
+
+(* ---- the data: a datum flagged as injected is the injected value ---- *)
+Definition inj_d (i : inj) : datum := match i with InjTicket b s | InjPsk b s => (b, s) end.
+Definition Dinv (i : inj) (g : gstate) (d : dstate) : Prop :=
+  (g_own_t g = GInj -> d_own_t d = inj_d i) /\
+  (g_own_p g = GInj -> d_own_p d = inj_d i) /\
+  (g_slot_t g = GInj -> d_slot_t d = inj_d i) /\
+  (g_slot_p g = GInj -> d_slot_p d = inj_d i) /\
+  (g_hs_sess g = GInj -> hs_sess d = snd (inj_d i)) /\
+  (g_hs_ticket g = GInj -> hs_ticket d = fst (inj_d i)) /\
+  (g_hs_ident g = GInj -> hs_ident d = Some (fst (inj_d i))) /\
+  (g_raw_t g = GInj -> exists p, raw d = Some ([fst (inj_d i)], p)) /\
+  (g_raw_p g = GInj -> exists t, raw d = Some (t, Some (fst (inj_d i)))).
+
+Ltac dcase :=
+  repeat match goal with
+         | |- context [match ?x with _ => _ end] => is_var x; destruct x
+         | |- context [if ?x then _ else _] => destruct x eqn:?
+         end.
+
+Lemma Dinv_act i w o a c g d :
+  Dinv i g d -> (injecting (kind o) = true -> arg_datum o = inj_d i) ->
+  Dinv i (gapply a (kind o) c g) (dapply w o a c d).
+Proof.
+  intros (H1 & H2 & H3 & H4 & H5 & H6 & H7 & H8 & H9) HA.
+  destruct c, g, d. cbn in *.
+  destruct a; unfold gapply, dapply, first_own, first_slot, p_own, spec_slot, slot_init, o_is_init, o_some; cbn;
+    dcase; cbn; unfold Dinv; cbn;
+    repeat split; intros E; try discriminate E; auto;
+    try (rewrite H1 by assumption; reflexivity); try (rewrite H2 by assumption; reflexivity);
+    try (rewrite H3 by assumption; reflexivity); try (rewrite H4 by assumption; reflexivity);
+    try (first [rewrite H1 by assumption | rewrite H2 by assumption | rewrite H3 by assumption | rewrite H4 by assumption];
+         eexists; reflexivity);
+    eauto.
+Qed.
+
+Lemma Dinv_run {A} i w o (p : prog A) : (injecting (kind o) = true -> arg_datum o = inj_d i) ->
+  forall c g d, Dinv i g d -> Dinv i (st_g (fst (runF w o p c g d))) (st_d (fst (runF w o p c g d))).
+Proof.
+  intros HA. induction p as [a|k IH|h q IH|a q IH|e|x]; intros c g d D; cbn; auto.
+  apply IH. apply Dinv_act; assumption.
+Qed.
